@@ -149,12 +149,49 @@ static int family_lanes(void)
         return 0;
 }
 
+/* crowds: K commands sharing one prefix (counters of candidates and table indices narrower than size_t), then one outsider */
+static int family_crowd(int big)
+{
+        static const int KS[] = {3, 255, 256, 257, 258, 511, 512, 513, 1023, 1025, 65535, 65536, 65537};
+        int idx = 0;
+        for (int ki = 0; ki < (big ? 13 : 10); ki++)
+                for (int gsplit = 0; gsplit < 2; gsplit++, idx++) {
+                        if (idx % SW.nshards != SW.shard) continue;
+                        int K = KS[ki];
+                        struct wcmd *c = sw_table(K + 1);
+                        for (int i = 0; i < K; i++) { snprintf(c[i].name, sizeof c[i].name, "+C%05d", i); c[i].hmask = HM_U | ((i & 1) ? HM_R : 0); c[i].group = (uint8_t)(gsplit && i >= K / 2); }
+                        strcpy(c[K].name, "+Z"); c[K].hmask = HM_U; c[K].group = (uint8_t)gsplit;
+                        W.ngrp = 1 + gsplit;
+                        sw_caps((K + 4) / 4 + 8, 0);
+                        /* huge tables: the per-call whole-state hashes of the stutter / OK-stable monitors are switched off (16 KiB per call) */
+                        W.line_max = 40; W.mon = K > 2000 ? (P_ALL & ~(unsigned)(P_C12 | P_C15)) : P_ALL;
+                        world_build();
+                        snprintf(SW.extra, sizeof SW.extra, "family=crowd candidates=%d groups=%d", K, W.ngrp);
+                        char l[8][24];
+                        snprintf(l[0], 24, "AT+C\n");                          /* K candidates, none exact: ERROR */
+                        snprintf(l[1], 24, "AT+C00000\n");
+                        snprintf(l[2], 24, "AT+C%05d\n", K - 1);
+                        snprintf(l[3], 24, "AT+C%05d?\n", K - 2 + ((K - 2) & 1 ? 0 : 1) < K ? K - 2 + ((K - 2) & 1 ? 0 : 1) : 1);
+                        snprintf(l[4], 24, "AT+Z\n");
+                        snprintf(l[5], 24, "AT+C0000\n");                      /* ten candidates (or fewer) */
+                        snprintf(l[6], 24, "AT+\n");                           /* K + 1 candidates */
+                        snprintf(l[7], 24, "AT+C%05d\n", K);                   /* nobody */
+                        for (int i = 0; i < 8; i++) {
+                                SW.cases++;
+                                if (sw_line((const uint8_t *)l[i], (int)strlen(l[i]))) return 1;
+                        }
+                        if (sw_expired()) return 0;
+                }
+        return 0;
+}
+
 int main(int argc, char **argv)
 {
         sw_init(argc, argv, "tables");
         const char *fam = sw_args(argc, argv, "--family", "small");
         if (!strcmp(fam, "small")) family_small(sw_argi(argc, argv, "--maxk", 3));
         else if (!strcmp(fam, "alphabet")) family_alphabet();
+        else if (!strcmp(fam, "crowd")) family_crowd(sw_argi(argc, argv, "--big", 1));
         else family_lanes();
         char tag[64];
         snprintf(tag, sizeof tag, "tables-%s-%d", fam, SW.shard);
